@@ -34,7 +34,7 @@ SETTINGS = 'year: 2024\ndata_sources:\n  - name: Bank\n    file: data/bank.csv\n
 shape_st = st.fixed_dictionaries({
     'entry': st.sampled_from(['up_migrate', 'up_migrate', 'init', 'layout']),
     'layout': st.sampled_from(['old', 'new']),
-    'trailing_newline': st.booleans(), 'existing_rules': st.sampled_from([False, False, True]), 'existing_bak': st.booleans(), 'existing_tally_dir': st.booleans(),
+    'trailing_newline': st.booleans(), 'existing_rules': st.sampled_from([False, False, True]), 'existing_bak': st.booleans(), 'existing_baks': st.sampled_from([[], [], [], ['.bak2'], ['.bak3'], ['.bak2', '.bak3']]), 'existing_tally_dir': st.booleans(),
     'views': st.booleans(), 'output': st.booleans(), 'notes': st.booleans(),
 })
 
@@ -68,6 +68,9 @@ def build(case, root):
         w('config/merchants.rules', '# hand-written, not referenced yet\n[Mine]\nmatch: contains("MINE")\ncategory: Mine\n')
     if shape['existing_bak']:
         w('config/merchant_categories.csv.bak', 'Pattern,Merchant,Category,Subcategory\nOLDBACKUP,Old,Misc,Old\n')
+    for suf in shape.get('existing_baks') or []:
+        # earlier backups need not be numbered contiguously
+        w('config/merchant_categories.csv' + suf, f'Pattern,Merchant,Category,Subcategory\nOLDER BACKUP {suf},Old,Misc,Old\n')
     if shape['views']:
         w('config/views.rules', '[Subs]\nfilter: category == "Subscriptions"\n')
     if shape['notes']:
